@@ -64,6 +64,61 @@ def rust_gen(suite, seed, budget, outdir, corpus_lines):
     return {"ok": rc == 0, "log": "harness exit status %s\n%s" % (rc, out)}
 
 
+MIRI_TARGET = os.path.join(BUILD, "miri-target")
+
+
+def rust_miri(suite, seed, budget, outdir, tag):
+    """The same harness, interpreted by Miri (nightly toolchain, offline): every unchecked access, every
+    reference and every allocation of the real crate is checked by the interpreter while the generated
+    operations run; at exit Miri reports memory that was never freed.  `procs` interpreters run in parallel,
+    each on its own seed.  Returns (failure lines tagged `[tag]`, stats)."""
+    import subprocess, time
+    procs = int(budget.get("procs", 4)); cases = int(budget.get("cases", 2)); n = int(budget.get("len", 40))
+    env = dict(ENV); env["MIRIFLAGS"] = "-Zmiri-disable-isolation"; env["CARGO_TARGET_DIR"] = MIRI_TARGET
+    t0 = time.time()
+    # build once (and set up the Miri sysroot on a fresh machine) before fanning out
+    warm = os.path.join(outdir, "miri-warm"); os.makedirs(warm, exist_ok=True)
+    with _Lock("cargo-miri"):
+        p = subprocess.run(["cargo", "+nightly", "miri", "run", "--offline", "--", "gen", suite, "--seed", "1", "--out", warm, "--cases", "0", "--len", "1"],
+                           cwd=RUST_H, env=env, stdout=subprocess.PIPE, stderr=subprocess.STDOUT, text=True, errors="replace", timeout=3600)
+    if p.returncode != 0:
+        return (["[%s] miri: the harness does not build / start under Miri: %s" % (tag, p.stdout[-300:].replace("\n", " | "))],
+                {"ran": False, "log": p.stdout[-600:]})
+    running = []
+    for i in range(procs):
+        od = os.path.join(outdir, "miri-%d" % i); os.makedirs(od, exist_ok=True)
+        cmd = ["cargo", "+nightly", "miri", "run", "--offline", "--", "gen", suite, "--seed", str(seed + 7919 * (i + 1)), "--out", od,
+               "--cases", str(cases), "--len", str(n)]
+        running.append((od, subprocess.Popen(cmd, cwd=RUST_H, env=env, stdout=subprocess.PIPE, stderr=subprocess.STDOUT, text=True, errors="replace")))
+    fails = []; lines = 0; ncases = 0; runs = []
+    for od, pr in running:
+        try:
+            out, _ = pr.communicate(timeout=7200)
+        except subprocess.TimeoutExpired:
+            pr.kill(); out = "<timeout>"
+        ops = []
+        try:
+            ops = open(os.path.join(od, "ops.txt")).read().splitlines()
+        except OSError:
+            pass
+        lines += len(ops); ncases += sum(1 for l in ops if l.startswith("case "))
+        ub = "Undefined Behavior" in out
+        leak = "memory leaked" in out or "the evaluated program leaked memory" in out
+        if pr.returncode != 0 or ub or leak:
+            what = "undefined behaviour" if ub else ("memory leaked" if leak else "abnormal exit status %s" % pr.returncode)
+            msg = " | ".join(l.strip() for l in out.splitlines() if l.strip().startswith(("error", "-->", "= note", "note:")))[:600]
+            last = [l for l in ops if l.startswith("case ")]
+            where = (" case=%s" % last[-1][5:].strip()) if (ub and last) else ""
+            fails.append({"text": "[%s]%s miri: %s in %s (seed %d): %s" % (tag, where, what, suite, seed, msg), "ops": ops})
+        try:
+            for l in open(os.path.join(od, "oracle.txt")).read().splitlines():
+                fails.append({"text": l, "ops": ops})
+        except OSError:
+            pass
+        runs.append({"dir": od, "exit_status": pr.returncode, "lines": len(ops)})
+    return fails, {"ran": True, "interpreters": procs, "cases": ncases, "lines": lines, "wall_s": round(time.time() - t0, 1), "runs": runs}
+
+
 def rust_replay(ops_path, outdir):
     rc, out = _sh([RUST_BIN, "replay", ops_path, "--out", outdir], timeout=120, limited=True)
     return rc == 0
